@@ -6,6 +6,7 @@
 -/
 import Miden.Lemmas.Pure
 import Miden.Lemmas.Trunc
+import Miden.Lemmas.Memcopy
 import Miden.Generated.StdlibSys
 namespace Miden.C18
 open Miden
@@ -62,6 +63,59 @@ theorem truncate_loop_exact (env : Env) (fuel : Nat) (vm vm' : Vm) (c : Nat) (t 
     (h0 : c = 0 ↔ t.length = 16) (h : Vm.exec env fuel (.loop (.span Trunc.bodyB)) vm = .ok vm') :
     ∃ s', Trunc.D vm' s' F M C ∧ s'.length = 16 :=
   Trunc.loop_spec env fuel vm vm' c t F M C hd h16 h1 h0 h
+
+/-- **memcopy moves exactly the requested words.**  `Generated.mem_memcopy` is the MAST the real
+    assembler produces for `exec.mem::memcopy` (regenerated on every run).  For every word count `n`
+    (zero included) and every read / write pointer whose windows lie in the 32-bit address space —
+    disjoint, overlapping either way, or identical — a completed execution consumes exactly
+    `[n, read_ptr, write_ptr]`, leaves the rest of the stack (zero-padded to depth 16) untouched and
+    leaves memory equal to `Memcopy.copyFwd`: the documented word-by-word copy, lowest address
+    first; all other memory, the frame pointer and the context are unchanged. -/
+theorem memcopy_exact (env : Env) (fuel : Nat) (vm vm' : Vm) (n r0 w0 : Nat) (rest : List Nat)
+    (hs : vm.stack = n :: r0 :: w0 :: rest) (hrest : 13 ≤ rest.length)
+    (hr : r0 + n ≤ 4294967296) (hw : w0 + n ≤ 4294967296)
+    (h : Vm.exec env fuel Generated.mem_memcopy vm = .ok vm') :
+    vm'.stack = padN 16 rest ∧ vm'.mem = Memcopy.copyFwd vm.ctx n r0 w0 vm.mem ∧ vm'.fmp = vm.fmp ∧
+      vm'.ctx = vm.ctx :=
+  Memcopy.memcopy_spec env fuel vm vm' n r0 w0 rest hs hrest hr hw h
+
+/-- Zero length copies nothing; one more word is one more write after the shorter copy. -/
+theorem copyFwd_zero (ctx r w : Nat) (m : Mem) : Memcopy.copyFwd ctx 0 r w m = m := rfl
+theorem copyFwd_succ (ctx i r w : Nat) (m : Mem) :
+    Memcopy.copyFwd ctx (i + 1) r w m
+      = (Memcopy.copyFwd ctx i r w m).write ctx (w + i) ((Memcopy.copyFwd ctx i r w m).read ctx (r + i)) := rfl
+
+/-- With disjoint windows every copied word is the original word of the source. -/
+theorem copyFwd_disjoint (ctx r w : Nat) (m : Mem) (n : Nat) (hd : r + n ≤ w ∨ w + n ≤ r) :
+    ∀ j, j < n → (Memcopy.copyFwd ctx n r w m).read ctx (w + j) = m.read ctx (r + j) := by
+  -- reads of the source window are never affected by the writes
+  have src : ∀ i, i ≤ n → ∀ a, (a < w ∨ w + i ≤ a) → (Memcopy.copyFwd ctx i r w m).read ctx a = m.read ctx a := by
+    intro i
+    induction i with
+    | zero => intro _ a _; rfl
+    | succ i ih =>
+      intro hi a ha
+      rw [copyFwd_succ, Mem.read_write_ne _ _ _ _ _ (by omega)]
+      exact ih (by omega) a (by omega)
+  induction n with
+  | zero => intro j hj; omega
+  | succ n ih =>
+    intro j hj
+    rw [copyFwd_succ]
+    by_cases hjn : j = n
+    · subst hjn
+      rw [Mem.read_write_same]
+      exact src j (by omega) (r + j) (by omega)
+    · rw [Mem.read_write_ne _ _ _ _ _ (by omega)]
+      exact ih (by omega) (fun i hi a ha => src i (by omega) a ha) j (by omega)
+
+-- Non-vacuity: an overlapping copy (read window 10..11, write window 11..12) on the executor model.
+example :
+    ((Vm.exec {} 60 Generated.mem_memcopy
+        { stack := [2, 10, 11] ++ List.replicate 13 7,
+          mem := [((0, 10), ⟨1, 2, 3, 4⟩), ((0, 11), ⟨5, 6, 7, 8⟩)] }).toOption.map
+      (fun v => (v.stack, v.mem.read 0 10, v.mem.read 0 11, v.mem.read 0 12)))
+    = some (List.replicate 13 7 ++ [0, 0, 0], ⟨1, 2, 3, 4⟩, ⟨1, 2, 3, 4⟩, ⟨1, 2, 3, 4⟩) := by decide
 
 -- Non-vacuity: a concrete run of the executor model on the regenerated MAST completes and truncates.
 example : ((Vm.exec {} 40 Generated.sys_truncate_stack { stack := List.range 23 }).toOption.map (·.stack))
